@@ -49,6 +49,12 @@ type mColOp struct {
 	To   int    `json:"to,omitempty"`
 	Name string `json:"name,omitempty"`
 }
+type mAddAdd struct {
+	Col  int    `json:"col"`
+	ValA string `json:"val_a"`
+	ValB string `json:"val_b"`
+}
+
 type mConflict struct {
 	Kind string `json:"kind"` // cell | remove-modify
 	Row  int    `json:"row"`
@@ -77,6 +83,9 @@ type MergeScenario struct {
 	Workers    int         `json:"workers"`
 	// KeyPerm: branch KeyPermB declares the same key columns in another order (permutation of the key
 	// positions); the merge must be refused or give the right result, never lose rows silently
+	// AddAdd: branches 0 and 1 both add one row with the same new key; the rows differ in one non-key cell
+	// (column AddAdd.Col), where one branch may hold the empty string: a conflict, never a silent pick
+	AddAdd   *mAddAdd `json:"add_add,omitempty"`
 	SwapCols bool  `json:"swap_cols,omitempty"` // generator marker: branch 0 swaps two columns by name, row bytes unchanged
 	KeyPerm  []int `json:"key_perm,omitempty"`
 	KeyPermB int   `json:"key_perm_b,omitempty"`
@@ -260,6 +269,13 @@ func genMergeScenario(r *Rand, tier string) MergeScenario {
 			sc.SwapCols = true
 		}
 	}
+	if len(pkIdx) > 0 && len(nonKey) > 0 && !sc.Identical && editBranches >= 2 && !hasAnyColOps(&sc) && r.Chance(0.12) {
+		va, vb := Pick(r, []string{"", "", "x", "0"}), Pick(r, []string{"y", "x ", "1"})
+		if r.Chance(0.5) {
+			va, vb = vb, va
+		}
+		sc.AddAdd = &mAddAdd{Col: Pick(r, nonKey), ValA: va, ValB: vb}
+	}
 	sc.Order = r.Perm(sc.NBranch)
 	if len(pkIdx) >= 2 && r.Chance(0.1) {
 		for tries := 0; tries < 5; tries++ {
@@ -271,12 +287,16 @@ func genMergeScenario(r *Rand, tier string) MergeScenario {
 				}
 			}
 			if !ident {
-				sc.KeyPerm, sc.KeyPermB = perm, r.Intn(sc.NBranch)
+				sc.KeyPerm, sc.KeyPermB = perm, r.Intn(sc.NBranch+1)-1 // -1: the base declares the other order
 				break
 			}
 		}
 	}
 	return sc
+}
+
+func hasAnyColOps(sc *MergeScenario) bool {
+	return len(sc.ColAdds)+len(sc.ColRemoves)+len(sc.ColMoves)+len(sc.ColRenames) > 0
 }
 
 func (sc *MergeScenario) baseTable() (cols, pk []string, rows [][]string) {
@@ -684,6 +704,25 @@ func execC05(t *testing.T, raw json.RawMessage, res *Result) {
 		return "A:" + name + ":" + fmt.Sprintf("%x", meowSum([]byte(key))[:3])
 	}
 
+	var addAddRow []string
+	if sc.AddAdd != nil {
+		if hasColOps || sc.Identical || nb < 2 || len(pkIdx) == 0 || !okCol(sc.AddAdd.Col) || sc.AddAdd.ValA == sc.AddAdd.ValB {
+			res.Invalid("add_add")
+			return
+		}
+		addAddRow = make([]string, len(cols))
+		for j := range addAddRow {
+			addAddRow[j] = "aa"
+			if contains(pkIdx, j) {
+				addAddRow[j] = "ZZ-ADDADD"
+			}
+		}
+		if k := keyOfRow(addAddRow); baseKeys[k] || addKeys[k] {
+			res.Invalid("add_add key exists")
+			return
+		}
+		res.probe("same_key_added_in_two_branches", 1)
+	}
 	// ---- build branch tables ----
 	type branchTable struct {
 		cols []string
@@ -728,6 +767,11 @@ func execC05(t *testing.T, raw json.RawMessage, res *Result) {
 			if contains(branchOf(a.B), b) {
 				rs = append(rs, append([]string(nil), a.Cells...))
 			}
+		}
+		if addAddRow != nil && b <= 1 {
+			row := append([]string(nil), addAddRow...)
+			row[sc.AddAdd.Col] = []string{sc.AddAdd.ValA, sc.AddAdd.ValB}[b]
+			rs = append(rs, row)
 		}
 		bc := append([]string(nil), cols...)
 		// column ops: rename, remove, add, move (by name so indices stay meaningful)
@@ -872,13 +916,38 @@ func execC05(t *testing.T, raw json.RawMessage, res *Result) {
 	}
 	w := &World{}
 	st := NewStore("L", w)
-	baseSum, err := ingestPlain(t, st, cols, pk, rows)
+	permKey := func() ([]string, bool) {
+		if len(sc.KeyPerm) != len(pk) {
+			return nil, false
+		}
+		seenP := map[int]bool{}
+		bpk := make([]string, len(pk))
+		for x, y := range sc.KeyPerm {
+			if y < 0 || y >= len(pk) || seenP[y] {
+				return nil, false
+			}
+			seenP[y] = true
+			bpk[x] = pk[y]
+		}
+		return bpk, true
+	}
+	keyReordered := false
+	basePK := pk
+	if len(sc.KeyPerm) > 0 && sc.KeyPermB == -1 {
+		bpk, ok := permKey()
+		if !ok {
+			res.Invalid("key_perm")
+			return
+		}
+		basePK = bpk
+		keyReordered = !rowsEqual(bpk, pk)
+	}
+	baseSum, err := ingestPlain(t, st, cols, basePK, rows)
 	if err != nil {
 		res.Invalid("ingest base: %v", err)
 		return
 	}
 	otherSums := make([][]byte, nb)
-	keyReordered := false
 	for i, b := range order {
 		bt := branches[b]
 		nr := NormaliseCSV(bt.cols, bt.rows)
@@ -954,6 +1023,11 @@ func execC05(t *testing.T, raw json.RawMessage, res *Result) {
 			hashToKey[string(meowSum(encStrList(keyOf(a.Cells, pkIdx))))] = k
 		}
 	}
+	if addAddRow != nil {
+		k := keyOfRow(addAddRow)
+		hashToKey[string(meowSum(encStrList(keyOf(addAddRow, pkIdx))))] = k
+		conflictKeys[k] = mConflict{Kind: "add-add", Col: sc.AddAdd.Col, A: 0, B: 1}
+	}
 	reported := map[rowKey]*merge.Merge{}
 	for _, m := range out.Conflicts {
 		k, ok := hashToKey[string(m.PK)]
@@ -977,7 +1051,7 @@ func execC05(t *testing.T, raw json.RawMessage, res *Result) {
 			res.Violate("silent-pick", "conflict (%s) on key %q is marked resolved", c.Kind, k)
 			return
 		}
-		if c.Kind == "cell" {
+		if c.Kind == "cell" || c.Kind == "add-add" {
 			want := -1
 			for x, name := range out.CD.Names {
 				if name == cols[c.Col] {
